@@ -152,12 +152,82 @@ fn run(case: &str) -> String {
     }
 }
 
+/// frame ids described in the repository's FIBEX files (read from the files of the working tree)
+fn fibex_frame_ids() -> &'static Vec<u32> {
+    static IDS: OnceLock<Vec<u32>> = OnceLock::new();
+    IDS.get_or_init(|| {
+        let mut v = vec![];
+        if let Ok(rd) = std::fs::read_dir("/repo/tests") {
+            for e in rd.flatten() {
+                if e.path().extension().map_or(false, |x| x == "xml") {
+                    if let Ok(t) = std::fs::read_to_string(e.path()) {
+                        for part in t.split("FRAME ID=\"ID_").skip(1) {
+                            if let Some(n) = part.split('"').next().and_then(|x| x.parse::<u32>().ok()) {
+                                if !v.contains(&n) {
+                                    v.push(n);
+                                }
+                            }
+                        }
+                    }
+                }
+            }
+        }
+        v.sort();
+        v
+    })
+}
+
+/// a synthetic non-verbose message: described / undescribed frame id, with or without an extended header of its own
+/// (same or other APID/CTID, level and argument count than the description), described / undescribed ECU
+fn synth_non_verbose(rng: &mut Rng) -> Vec<u8> {
+    let ids = fibex_frame_ids();
+    let id = if !ids.is_empty() && !rng.chance(4) { ids[rng.below(ids.len() as u64) as usize] } else { rng.below(1 << 31) as u32 };
+    let ecu: &[u8; 4] = if rng.chance(4) { b"Ecu9" } else { b"Ecu1" };
+    let ext = if rng.chance(3) {
+        None
+    } else {
+        let ids4: [&[u8; 4]; 5] = [b"HLD\0", b"MAIN", b"APP2", b"CTX2", b"SYS\0"];
+        Some(DltExtendedHeader {
+            verb_mstp_mtin: ((rng.below(7) as u8) << 4) | ((rng.below(4) as u8) << 1),
+            noar: rng.below(3) as u8,
+            apid: DltChar4::from_buf(ids4[rng.below(5) as usize]),
+            ctid: DltChar4::from_buf(ids4[rng.below(5) as usize]),
+        })
+    };
+    let mut payload: Vec<u8> = if rng.chance(8) { id.to_be_bytes().into() } else { id.to_le_bytes().into() };
+    for _ in 0..rng.below(12) {
+        payload.push(rng.below(256) as u8);
+    }
+    let m = DltMessage {
+        index: 0,
+        reception_time_us: 1_640_995_200_000_000 + rng.below(1_000_000),
+        ecu: DltChar4::from_buf(ecu),
+        timestamp_dms: rng.below(100_000) as u32,
+        standard_header: DltStandardHeader { htyp: (1 << 5) | (1 << 4) | if ext.is_some() { 1 } else { 0 } | if rng.chance(8) { 2 } else { 0 }, mcnt: rng.below(256) as u8, len: 0 },
+        extended_header: ext,
+        payload,
+        payload_text: None,
+        lifecycle: 0,
+    };
+    let mut w = vec![];
+    let _ = m.to_write(&mut w);
+    w
+}
+
 fn gen(rng: &mut Rng, tier: u32) -> String {
     let pool = pool();
     let n = 1 + rng.below(if tier > 0 { 40 } else { 15 }) as usize;
     let mut msgs: Vec<Vec<u8>> = vec![];
     // runs of consecutive example messages, from random places
+    let synth = rng.chance(3);
     while msgs.len() < n && !pool.is_empty() {
+        if synth && rng.chance(2) {
+            let m = synth_non_verbose(rng);
+            if !m.is_empty() {
+                msgs.push(m);
+            }
+            continue;
+        }
         let start = rng.below(pool.len() as u64) as usize;
         let run = 1 + rng.below(6) as usize;
         for k in 0..run {
